@@ -153,7 +153,9 @@ namespace options
 
                     while (std::getline(str, element, ';'))
                     {
-                        update_value(element);
+                        // take the elements verbatim, they are not command line arguments
+                        dirty_ = true;
+                        value_.push_back(element);
                     }
 
                     return;
